@@ -140,6 +140,12 @@ def main(argv):
                 inconclusive.append('vacuity[%s]: %s' % (r['job'], r['reason'] or r['status']))
                 print('INCONCLUSIVE: %s: %s' % (r['id'], (r['reason'] or r['status'])[:300]))
             continue
+        if r['status'] == 'inconclusive' and j.get('may_time_out') and r['reason'].startswith('timeout'):
+            # instances known to sit at the edge of what the back ends decide (thorough tier): a timeout is reported as undecided in the evidence
+            # and in the output, it is not counted as discharged, and it does not turn the run into a failure
+            print('UNDECIDED: %s: %s' % (r['job'], r['reason'][:200]))
+            per_job.append({'job': r['job'], 'status': 'undecided', 'reason': r['reason'][:200]})
+            continue
         if r['status'] == 'inconclusive':
             inconclusive.append('%s: %s' % (r['job'], r['reason']))
             print('INCONCLUSIVE: %s: %s' % (r['job'], r['reason'][:300]))
